@@ -414,6 +414,8 @@ func c04Universe(ci int) (present, absent []c04ID) {
 	}
 	add(&absent, 0, 0)
 	add(&absent, 1<<60, 1<<60)
+	add(&absent, 1<<63, 1)           // beyond the int64 range of times
+	add(&absent, 1<<64-1, 1<<64-1) // the largest ID there is
 	return
 }
 
@@ -629,7 +631,7 @@ func TestVerifC04(t *testing.T) {
 	}
 	ev := r.Get("evaluations")
 	r.Finish(t, "model_checking",
-		fmt.Sprintf("11 corpora (one with a sealed fraction deleted after the fraction list of the requests was taken; sealed fractions have several 64-byte doc blocks; one corpus seals two multi-block fractions one after the other), built with the scaled block constants of the `small` overlay (4 IDs per block) (active / sealed / overlapping fractions / equal MIDs within one and across two ID blocks / a sealed fraction of recent documents in sparse minutes, which has a minute occupancy map; doc sizes 2..200 B); every list of <=%d distinct IDs over {present IDs} + {absent IDs at every border: (From-1), (From,minRID-1), (From,minRID+1), between, (To,maxRID+1), (To+1,0), 0, max}; hints {none,right,wrong(mixed),unknown}; via Fetcher.FetchDocs and streaming GrpcV1.Fetch; plus lists of 1001/1500/2500 IDs with 0..3 present documents at start/middle/chunk end/end or spread over the chunks, taken from the oldest or from the newest fraction first. Stores live in worker subprocesses; a dying or hanging store is a violation after 3 reproductions. non-trivial = a present document at a position > 0 or a large list", maxLen),
+		fmt.Sprintf("11 corpora (one with a sealed fraction deleted after the fraction list of the requests was taken; sealed fractions have several 64-byte doc blocks; one corpus seals two multi-block fractions one after the other), built with the scaled block constants of the `small` overlay (4 IDs per block) (active / sealed / overlapping fractions / equal MIDs within one and across two ID blocks / a sealed fraction of recent documents in sparse minutes, which has a minute occupancy map; doc sizes 2..200 B); every list of <=%d distinct IDs over {present IDs} + {absent IDs at every border: (From-1), (From,minRID-1), (From,minRID+1), between, (To,maxRID+1), (To+1,0), 0, 2^60, 2^63, 2^64-1}; hints {none,right,wrong(mixed),unknown}; via Fetcher.FetchDocs and streaming GrpcV1.Fetch; plus lists of 1001/1500/2500 IDs with 0..3 present documents at start/middle/chunk end/end or spread over the chunks, taken from the oldest or from the newest fraction first. Stores live in worker subprocesses; a dying or hanging store is a violation after 3 reproductions. non-trivial = a present document at a position > 0 or a large list", maxLen),
 		map[string]any{
 			"states":                        len(c04Corpora),
 			"transitions":                   ev,
